@@ -13,6 +13,7 @@ import (
 	"runtime"
 	"sort"
 	"strings"
+	"sync"
 	"time"
 
 	"github.com/go-fed/activity/pub"
@@ -153,6 +154,13 @@ type App struct {
 	// ServePage, if set, supplies the page served by GetInbox / GetOutbox.
 	ServePage func(iri string) (vocab.ActivityStreamsOrderedCollectionPage, error)
 
+	// Sync makes Actor() return one shared actor whose application interfaces are safe for
+	// free-running goroutines (real per-id mutexes); used by the -race passes only.
+	Sync      bool
+	syncActor map[ActorKind]pub.Actor
+	syncMu    *sync.Mutex // serialises the application callbacks handed out as closures
+	syncSt    *syncState
+
 	// exploration plumbing
 	X        *mc.Exec
 	S        *mc.Sched
@@ -204,6 +212,7 @@ func (a *App) Clone() *App {
 	b.Deliveries = nil
 	b.Reqs = nil
 	b.X, b.S = nil, nil
+	b.syncActor, b.syncMu, b.syncSt = nil, nil, nil
 	b.faultN = 0
 	return &b
 }
@@ -523,6 +532,15 @@ func (k ActorKind) String() string { return [...]string{"social", "federating", 
 
 // Actor builds a pub.Actor of the requested kind over this application.
 func (a *App) Actor(k ActorKind) pub.Actor {
+	if a.Sync {
+		if a.syncActor == nil {
+			a.syncActor = map[ActorKind]pub.Actor{}
+		}
+		if _, ok := a.syncActor[k]; !ok {
+			a.syncActor[k] = a.SyncActor(k)
+		}
+		return a.syncActor[k]
+	}
 	switch k {
 	case SocialOnly:
 		return pub.NewSocialActor(Common{a}, Social{a}, DB{a}, Clk{a})
